@@ -11,4 +11,9 @@ def run(c):
         obl_fixed.obl_session_fixed(c, 3, 3, 2, budget_s=3000)
     c.only_clauses = clauses.GLUE_C06
     obl_phonetic.obl_phonetic_glue(c, 2 if c.tier == "quick" else 3, budget_s=900)
+    # "behaves from then on exactly like a newly created context": the candidate assembly on an object with a history (memo of any size,
+    # stale scratch) against a pristine one
+    import obl_assembly as A
+    c.only_clauses = {"context_with_history_gives_the_list_of_a_new_one", "context_with_history_gives_the_preselection_of_a_new_one"}
+    A.obl_warm(c, A.conv_table_for([]), thorough=(c.tier == "thorough"), budget_s=900)
     c.only_clauses = None
